@@ -265,12 +265,32 @@ def task_scenarios(t):
                 c = arena.bus.rawconnect(0)
                 arena.bus.rawmode.add(c)
                 hs.append(c)
-                arena.bus.send(c, [b'\0', b'\0AUTH', b'\0AUTH EXTERNAL 30\r\n', b'', b'\0AUTH EXTERNAL 30\r\nBEG'][i % 5])
+                # the first one completes authentication (BEGIN) but never says Hello: it is still "incomplete" and
+                # subject to the same deadline as the ones that never authenticate
+                arena.bus.send(c, [b'\0AUTH EXTERNAL 30\r\nBEGIN\r\n', b'\0AUTH', b'\0AUTH EXTERNAL 30\r\n', b'', b'\0AUTH EXTERNAL 30\r\nBEG'][i % 5])
             arena.bus.pump()
             vs = []
             arena.round_trip(vs, 'storm before timeout')
-            arena._distribute(arena.bus.advance(LIMITS['auth_timeout'] + 1000))
-            arena._distribute(arena.bus.advance(LIMITS['auth_timeout'] + 1000))
+            gone = set()
+            for _ in range(3):
+                o = arena.bus.advance(LIMITS['auth_timeout'] + 1000)
+                gone |= {c for c, rv in o.items() if rv.eof}
+                arena._distribute(o)
+            o = arena.bus.recvall()
+            gone |= {c for c, rv in o.items() if rv.eof}
+            arena._distribute(o)
+            # only those the bus had accepted (the limit keeps the others in the listen queue) are its responsibility,
+            # and the accepted ones include the first max_incomplete_connections of hs
+            kept = [c for c in hs[:LIMITS['max_incomplete_connections']] if c not in gone]
+            if kept:
+                vs.append(Violation('stale-connection-kept', 'auth-timeout', 'storm: %d of the first %d unregistered connections were still open well after auth_timeout (client slots %r)' %
+                                    (len(kept), LIMITS['max_incomplete_connections'], kept), None))
+            # a newcomer must be served now
+            nc = arena.new_hostile('registered')
+            if arena.uname.get(nc) is None:
+                vs.append(Violation('bystanders-not-served', 'newcomer', 'storm: a new client could not register after the stale connections should have been dropped', None))
+            else:
+                arena.close_slot(nc)
             arena.round_trip(vs, 'storm after timeout')
             for c in hs:
                 arena.bus.h.cmd('CLOSE %d' % c)
